@@ -64,6 +64,29 @@ def main():
         # the caller stands in the metafile's directory and names it by its bare file name
         os.chdir(os.path.dirname(spec["metafile"]))
         spec["metafile"] = os.path.basename(spec["metafile"])
+    if spec.get("stale_part"):
+        # (prepared BEFORE any fault is armed: the files below are written by this runner)
+        # a leftover of an earlier run sits at '<metafile>.part': a regular file, a symbolic link
+        # to the metafile itself, or a link to some other file; or a HARD link (a second name of
+        # the same inode) of the metafile itself (a publisher that does link(tmp, final) +
+        # unlink(tmp) and died in between, a `cp -l` snapshot) or of some other file
+        part = spec["metafile"] + ".part"
+        if spec["stale_part"] == "file":
+            with open(part, "wb") as fd:
+                fd.write(b"d4:infod4:name5:stalee")
+        elif spec["stale_part"] == "link-to-metafile":
+            os.symlink(os.path.basename(spec["metafile"]), part)
+        elif spec["stale_part"] == "hardlink-to-metafile":
+            # (of the file the metafile path leads to, when that path is itself a symbolic link)
+            os.link(os.path.realpath(spec["metafile"]), part)
+        else:
+            other = spec["metafile"] + ".other"
+            with open(other, "wb") as fd:
+                fd.write(b"an unrelated file that must survive")
+            if spec["stale_part"] == "hardlink-to-other":
+                os.link(other, part)
+            else:
+                os.symlink(os.path.basename(other), part)
     if mode == "kill-after-replace":
         # the process dies the moment the rename has returned (nothing after it runs)
         real_replace, real_rename = os.replace, os.rename
@@ -157,20 +180,6 @@ def main():
             return Handle(fd) if writing and inside else fd
         import builtins
         builtins.open = fake_open      # every module that writes through open() is covered
-    if spec.get("stale_part"):
-        # a leftover of an earlier run sits at '<metafile>.part': a regular file, a symbolic link
-        # to the metafile itself, or a link to some other file
-        part = spec["metafile"] + ".part"
-        if spec["stale_part"] == "file":
-            with open(part, "wb") as fd:
-                fd.write(b"d4:infod4:name5:stalee")
-        elif spec["stale_part"] == "link-to-metafile":
-            os.symlink(os.path.basename(spec["metafile"]), part)
-        else:
-            other = spec["metafile"] + ".other"
-            with open(other, "wb") as fd:
-                fd.write(b"an unrelated file that must survive")
-            os.symlink(os.path.basename(other), part)
     def do_edit():
         if spec.get("route") == "interactive":
             # the interactive editor: choose property 1 (comment), type the value, DONE
